@@ -241,6 +241,32 @@ def run_one(ck, prog):
                     if lens and fcall and all(cfg.dominates(z[3], fcall[0]) and z[3] != fcall[0] for z in lens):
                         starts = True
             ck.ob("C15.3", "checked-range-starts-at-old-length", starts, fn=ap["path"], detail="only the appended part [old_len..] is validated (and must be)")
+        # valid data: the count returned is the reader's own count (the bytes it appended), unchanged; or the difference of the lengths
+        fcall = [bb for bb, t in cfg.calls(lambda t: (t.get("callee") or "").endswith("FnOnce::call_once"))]
+        if adv and len(fcall) == 1:
+            after = cfg.reachable_from(adv[0])
+            defs = []
+            for b in ap["blocks"]:
+                if b["id"] not in after or b.get("cleanup"):
+                    continue
+                for i, s2 in enumerate(b["stmts"]):
+                    if s2["k"] == "assign" and s2["dst"]["l"] == 0 and not s2["dst"].get("p"):
+                        defs.append(ctx.prov.rvalue(s2["rv"], (b["id"], i)))
+                t = b["term"]
+                if t["k"] == "call" and t.get("dst") and t["dst"]["l"] == 0 and not t["dst"].get("p"):
+                    defs.append(("call", t.get("callee"), tuple(ctx.args(b["id"])), b["id"]))
+
+            def own_count(e):
+                e = strip_casts(e)
+                if isinstance(e, tuple) and e[0] == "call" and e[3] == fcall[0]:
+                    return True
+                if isinstance(e, tuple) and e[0] == "agg" and e[2] == "Ok" and e[3]:
+                    d = strip_casts(e[3][0])
+                    return isinstance(d, tuple) and d[0] == "bin" and d[1] == "Sub" and mentions(d[2], ctx.prov, lambda z: z[0] == "call" and (z[1] or "").endswith("::len")) and \
+                        (mentions(d[3], ctx.prov, lambda z: z[0] == "field" and z[2] == "len") or any(z[0] == "call" and (z[1] or "").endswith("::len") and cfg.dominates(z[3], fcall[0]) and z[3] != fcall[0] for z in walk_deep(d[3], ctx.prov)))
+                return False
+            ck.ob("C15.3", "valid-data-returns-the-readers-count", bool(defs) and all(own_count(d) for d in defs), fn=ap["path"],
+                  detail=f"after valid data the result must be the reader closure's own result (the appended count); found {[show(d)[:80] for d in defs]}")
         gd = [f for p, f in prog.fns.items() if "append_to_string::Guard" in p and p.endswith("Drop>::drop")]
         if ck.anchor("C15.3", "Guard::drop", gd):
             c2 = prog.ctx(gd[0])
@@ -331,6 +357,22 @@ def run_one(ck, prog):
                             if mentions(ev, ctx.prov, lambda z: (z[0] == "field" and z[2] == "error") or (z[0] == "place" and z[2] == "output")):
                                 ok = True
             ck.ob("C15.5", "stored-error-returned", ok, fn=wf["path"], detail="when formatting fails the adapter's stored I/O error must be returned")
+        # whichever fmt::Write method of the adapter reaches the writer does so through write_all and keeps the writer's error
+        n_ad = 0
+        for p2, f2 in prog.fns.items():
+            if "write_fmt::Adapter" not in p2 or "core::fmt::Write" not in p2:
+                continue
+            c3 = prog.ctx(f2)
+            for bb, t in c3.cfg.calls(lambda t: "io::Write::" in (t.get("callee") or "")):
+                n_ad += 1
+                meth = t["callee"].split("::")[-1]
+                ck.ob("C15.5", f"adapter|{p2.split('::')[-1]}|delivers-through-write_all", meth == "write_all", fn=p2, site=c3.site(bb), detail=f"the adapter calls Write::{meth}; a short write would lose the rest of the text")
+                errs = err_edges_of_call(c3, bb)
+                keeps = {b["id"] for b in f2["blocks"] if any(s["k"] == "assign" and s["dst"].get("p") and any(pe["k"] == "field" and pe.get("n") == "error" for pe in s["dst"]["p"]) for s in b["stmts"])}
+                lost = [e for e in errs if set(c3.cfg.return_blocks()) & c3.cfg.reachable_from(e.dst, avoid=keeps)]
+                ck.ob("C15.5", f"adapter|{p2.split('::')[-1]}|writer-error-kept", bool(errs) and not lost, fn=p2, site=c3.site(bb),
+                      detail="when the writer fails the adapter must store that error (self.error = Err(e)) before reporting fmt::Error; otherwise write_fmt answers with a generic formatter error")
+        ck.floor("C15.5", "adapter calls of the writer", n_ad, 1)
         ad = [f for p, f in prog.fns.items() if "write_fmt::Adapter" in p and p.endswith("write_str")]
         if ck.anchor("C15.5", "Adapter::write_str", ad):
             c2 = prog.ctx(ad[0])
